@@ -131,6 +131,9 @@ void UncompressedFile::write(const char * s, std::streamsize n) {
                 logContainer->filePosition =
                     m_data.back()->uncompressedFileSize +
                     m_data.back()->filePosition;
+            } else {
+                /* all previous data was dropped, continue at the put position */
+                logContainer->filePosition = m_tellp;
             }
             m_data.push_back(logContainer);
         }
